@@ -1461,7 +1461,8 @@ class Server:
     @ConnectionConditions(ConnectionConditions.login_required)
     async def pasv(self, connection, rest):
         async def handler(reader, writer):
-            if connection.future.data_connection.done():
+            session_is_over = connection.command_connection.writer.is_closing()
+            if connection.future.data_connection.done() or session_is_over:
                 writer.close()
             else:
                 connection.data_connection = ThrottleStreamIO(
@@ -1506,7 +1507,8 @@ class Server:
     @ConnectionConditions(ConnectionConditions.login_required)
     async def epsv(self, connection, rest):
         async def handler(reader, writer):
-            if connection.future.data_connection.done():
+            session_is_over = connection.command_connection.writer.is_closing()
+            if connection.future.data_connection.done() or session_is_over:
                 writer.close()
             else:
                 connection.data_connection = ThrottleStreamIO(
